@@ -8,6 +8,7 @@ import (
 	"time"
 
 	"github.com/cbeuw/Cloak/internal/server/usermanager"
+	vk "github.com/cbeuw/Cloak/internal/verifkit"
 	log "github.com/sirupsen/logrus"
 )
 
@@ -168,5 +169,21 @@ func vPRF(tag uint64, off uint64) byte {
 func vFill(b []byte, tag uint64, off uint64) {
 	for i := range b {
 		b[i] = vPRF(tag, off+uint64(i))
+	}
+}
+
+// Wedge oracle of the server package's bubbles (see kit/run.go): a bubble that is permanently stuck with the handler
+// of a connection - or a direct presentation of a first packet - queued on a lock means that peer is never
+// answered: neither relayed to the redirect target nor given a handshake reply nor closed. Not judged while the
+// harness itself parks a goroutine at a schedule point (it may be the lock's holder).
+func init() {
+	vk.DefaultWedgeCheck = func(w vk.Wedge) error {
+		if w.AnyHas("server.vArm") {
+			return nil
+		}
+		if where, ok := w.QueuedOnLock("server.dispatchConnection", "server.AuthFirstPacket"); ok {
+			return vk.ViolateSig("handler-stuck-on-lock", "a peer is never answered (not relayed to the redirect target, no handshake reply, not closed): its handler is queued for ever on a lock nobody will release (%s)", where)
+		}
+		return nil
 	}
 }
